@@ -2,6 +2,7 @@ import XmppModel.Prelude.Hex
 import XmppModel.Prelude.Xml
 import XmppModel.Model.Stanza
 import XmppModel.Model.Encoder
+import XmppModel.Model.Header
 /-! Driver for C13 (see harness/c13 for the line protocol).  All text fields hex (`-` empty).
 
     start <kind> <space> <id> <to> <from> <lang> <typ>          -> start token
@@ -64,6 +65,11 @@ def mkStz (sp id to fr lang typ : String) : Option Stz := do
 
 def handle (args : List String) : Option String :=
   match args with
+  -- a text field after a trip through the encoder and the decoder: code points XML cannot carry
+  -- arrive as U+FFFD (`Header.fixChar`, the substitution of `xml.EscapeText`)
+  | ["fix", t] => do
+    let t ← hexDecodeStr t
+    pure (let o := String.ofList (t.toList.map XmppModel.Header.fixChar); if o.isEmpty then "-" else hexEncodeStr o)
   | ["start", k, sp, id, to, fr, lang, typ] => do
     let k ← parseKind k; let x ← mkStz sp id to fr lang typ
     pure (showToks [startElement k x])
